@@ -29,8 +29,13 @@ func (f *Field[T]) reduce(a *Element[T], strict bool) *Element[T] {
 	//   - in non-strict case and the element has overflow
 
 	// sanity check
-	if _, aConst := f.constantValue(a); aConst {
-		panic("trying to reduce a constant, which happen to have an overflow flag set")
+	if ba, aConst := f.constantValue(a); aConst {
+		// reducing a constant (strictly, or one carrying an overflow flag e.g. the product of
+		// two constants): the canonical representative is again a constant
+		ba.Mod(ba, f.fParams.Modulus())
+		r := newConstElement[T](ba, false)
+		r.modReduced = true
+		return r
 	}
 	// slow path - use hint to reduce value
 	return f.mulMod(a, f.One(), 0, nil)
